@@ -18,6 +18,9 @@ for pid in sys.argv[1:]:
     for ch in sorted((wt / '_seed').glob('change*')):
         meta = json.loads((ch / 'meta.json').read_text())
         cmd = meta['demo_cmd']
+        for cut in (' ; echo exit', '   (then', ' (then:'):
+            if cut in cmd:
+                cmd = cmd[:cmd.index(cut)]
         sh('git checkout -q -- src', wt)
         rc_clean, out_clean = sh(cmd, wt, 300)
         rc_apply, out_apply = sh(f'git apply {ch}/patch.diff', wt)
